@@ -219,8 +219,84 @@ def history(draw):
     return {"shape": shape, "producers": producers, "steps": steps}
 
 
-PARTS = {"history": check_history}
+# ----------------------------------------------------------------------------------- program-level slice
+
+_SNAP = {}
+_WRAPPED = set()
+
+
+def install_snapshot_wrappers():
+    """Wrap Command.run once: the moment a command finishes, snapshot its result."""
+    from mpilot.commands import Command
+
+    if "run" in _WRAPPED:
+        return
+    orig = Command.run
+
+    def run(self):
+        was = self.is_finished
+        orig(self)
+        if not was and self.is_finished and isinstance(self._result, numpy.ndarray):
+            _SNAP[id(self)] = (self.result_name, type(self).__name__, snapshot(self._result))
+
+    Command.run = run
+    _WRAPPED.add("run")
+
+
+def check_program(model, rec):
+    """Run a generated model through Program.run (shared intermediates, writers attached) and compare every result
+    at the end with the snapshot taken the moment it was produced."""
+    from mpilot.program import Program
+
+    from ..gen import models as M
+
+    install_snapshot_wrappers()
+    tmp = tempfile.mkdtemp(prefix="vcheck-c09-")
+    try:
+        M.write_table(model, os.path.join(tmp, "input.csv"))
+        names = [n["name"] for n in model["nodes"]]
+        extra = ['WAll = EEMSWrite(OutFileName = "all.csv", OutFieldNames = [%s])' % ", ".join(names),
+                 'PAll = PrintVars(InFieldNames = [%s], OutFileName = "all.txt")' % ", ".join(names)]
+        text = M.source(model, extra_lines=extra)
+        _SNAP.clear()
+        try:
+            prog = Program.from_source(text, working_dir=tmp)
+            prog.run()
+        except Exception as exc:
+            rec.exclude("model_does_not_run:%s" % type(exc).__name__)
+        fails = []
+        try:
+            cmds = prog.commands
+        except NameError:
+            return []
+        consumers = {}
+        for nd in model["nodes"]:
+            for i in nd.get("inputs", []):
+                consumers.setdefault(i, []).append(nd["cmd"])
+        for name in names:
+            c = cmds.get(name)
+            if c is None or id(c) not in _SNAP:
+                continue
+            _, cls, snap = _SNAP[id(c)]
+            why = unchanged(snap, c._result)
+            if why:
+                fails.append(Failure("program:mutated_result_of:%s|%s" % (cls, why.split(" ")[0]),
+                                     "%s (%s) consumed by %r: %s\n%s" % (name, cls, consumers.get(name), why, text)))
+                break
+        rec.label("program_model")
+        if any(len(v) >= 2 for v in consumers.values()):
+            rec.nontrivial_case(["program", model])
+            rec.label("program_shared_result")
+        return fails
+    finally:
+        shutil.rmtree(tmp, ignore_errors=True)
+
+
+PARTS = {"history": check_history, "program": check_program}
 
 
 def run_shard(ctx, rec):
+    from ..gen import models as M
+
     drive(ctx, rec, "history", history(), check_history, ctx.n(3200, 60000))
+    drive(ctx, rec, "program", M.typed_models(max_nodes=10, clean=True), check_program, ctx.n(800, 20000))
